@@ -31,7 +31,7 @@ func markersRun(mark string) []string {
 }
 
 func checkC17(c *Ctx) {
-	c.rule = "names: ALL strings of length <= 1 over printable ASCII (thorough: <= 2) + sampled pairs + hand-picked (separators, dots, NUL, non-ASCII, long) in recipient, identity and bare-name (-j) positions: constructor verdict and name vs the model; CLI: for a set of names the real `age` binary is run (-j NAME encrypting and decrypting, -r age1NAME1..., -i file with an AGE-PLUGIN-NAME- identity) with a sentinel PATH holding a marker executable for every file-system-expressible name, nested decoys (age-plugin-a/b in the working directory and on PATH), and the set of markers that ran is compared with the model's prediction (exactly age-plugin-NAME for a valid name, nothing otherwise); decrypting headers full of stanza types named like plugins with native identities must start nothing. distinct_nontrivial = distinct (position, name) cases."
+	c.rule = "names: ALL strings of length <= 1 over printable ASCII (thorough: <= 2) + sampled pairs + hand-picked (separators, dots, NUL, non-ASCII, long) in recipient, identity and bare-name (-j) positions: constructor verdict and name vs the model; CLI: for a set of names the real `age` binary is run (-j NAME encrypting and decrypting, -r age1NAME1..., -i file with an AGE-PLUGIN-NAME- identity) with a sentinel PATH holding a marker executable for every file-system-expressible name, nested decoys (age-plugin-a/b in the working directory and on PATH), PATH lists of 1-3 entries over {absolute with / without the program, relative with / without, empty, dot} with every copy of the program tagged (which one runs vs PathLookup.executed), and the set of markers that ran is compared with the model's prediction (exactly age-plugin-NAME for a valid name, nothing otherwise); decrypting headers full of stanza types named like plugins with native identities must start nothing. distinct_nontrivial = distinct (position, name) cases."
 	// ---- (a) constructors ----
 	for _, name := range c.pluginNames() {
 		// bare name (-j): NewIdentityWithoutData
@@ -97,6 +97,8 @@ func checkC17(c *Ctx) {
 			in := map[string]string{"position": pos, "string": s}
 			c.Compare("plugin.New{Recipient,Identity}~Bech32.parse_plugin_*", in, impl, model)
 			c.Oracle("constructed-plugin-name-is-valid", cerr != nil || validName(gotName), "invalid-plugin-name-accepted", in, "a plugin "+pos+" with the invalid name "+gotName+" was constructed")
+			// the name that will be executed is the WHOLE name the string carries (lower-cased), not a part of it
+			c.Oracle("constructed-plugin-name-is-the-encoded-name", cerr != nil || gotName == strings.ToLower(name), "wrong-plugin-name", in, "the string carries the name "+strings.ToLower(name)+" but the constructed "+pos+" would run age-plugin-"+gotName)
 			c.note(pos+":"+s, true)
 			c.count(pos + "-string")
 		}
@@ -203,6 +205,93 @@ func checkC17(c *Ctx) {
 			c.Oracle("only-the-program-found-on-PATH-runs", !strings.Contains(string(b), tmpd), "wrong-program-executed", in, "a program that is not the one found by searching PATH was started: "+string(b))
 			c.note("relpath:"+pathv, true)
 			c.count("cli-relative-PATH")
+		}
+	}
+	// ---- (b3) the PATH search itself: lists of absolute / relative / empty entries with and without the program;
+	// which copy runs (each copy is a script that writes its own tag) vs PathLookup.executed ----
+	{
+		lp := filepath.Join(dir, "lp")
+		type ent struct {
+			tag, pathv string
+			abs, has   bool
+		}
+		ents := []ent{
+			{"A1", filepath.Join(lp, "a1"), true, true}, {"A2", filepath.Join(lp, "a2"), true, true}, {"A0", filepath.Join(lp, "a0"), true, false},
+			{"R1", "r1", false, true}, {"R0", "r0", false, false}, {"E", "", false, true}, {"D", ".", false, true},
+		}
+		wd := filepath.Join(lp, "wd")
+		place := func(d, tag string) {
+			os.MkdirAll(d, 0o755)
+			os.WriteFile(filepath.Join(d, "age-plugin-lp"), []byte("#!/bin/sh\necho '"+tag+"' >> \"$VERIF_LP_MARK\"\nexec '"+stub+"' \"$@\"\n"), 0o755)
+		}
+		place(filepath.Join(lp, "a1"), "A1")
+		place(filepath.Join(lp, "a2"), "A2")
+		os.MkdirAll(filepath.Join(lp, "a0"), 0o755)
+		place(filepath.Join(wd, "r1"), "R1")
+		os.MkdirAll(filepath.Join(wd, "r0"), 0o755)
+		place(wd, "WD") // found through "" and "."
+		lpmark := filepath.Join(lp, "mark")
+		var rec func(list []int)
+		rec = func(list []int) {
+			if len(list) > 0 {
+				if len(list) < 3 || c.thorough() || c.rng.intn(6) == 0 {
+					var pv, entries []string
+					for _, i := range list {
+						pv = append(pv, ents[i].pathv)
+						entries = append(entries, lst(sbool(ents[i].abs), sbool(ents[i].has)))
+					}
+					pathv := strings.Join(pv, ":")
+					if len(list) == 1 && pathv == "" {
+						pathv = ":" // PATH="" would mean no entries at all; ":" is two empty ones (same verdict)
+						entries = append(entries, entries[0])
+					}
+					os.Remove(lpmark)
+					runCLI("age", []string{"-e", "-j", "lp"}, cliOpts{stdin: []byte("data"), dir: wd, env: []string{"PATH=" + pathv, "TMPDIR=" + wd, "VERIF_LP_MARK=" + lpmark, "VERIF_PLUGIN_SCRIPT=" + script}, fsize: -1})
+					b, _ := os.ReadFile(lpmark)
+					ran := strings.Fields(string(b))
+					model := c.model.Call("lookpath", lst(entries...))
+					want := "[]"
+					if mx := parseAll(model)[0]; mx.isL {
+						k := mx.list[1].num()
+						if k < len(list) {
+							want = "[" + ents[list[k]].tag + "]"
+						} else {
+							want = "[" + ents[list[0]].tag + "]" // the duplicated lone empty entry
+						}
+					}
+					in := map[string]interface{}{"PATH": pathv, "entries": pv}
+					c.Compare("which age-plugin-NAME runs for a given PATH~PathLookup.executed", in, fmt.Sprint(ran), want)
+					for _, r := range ran {
+						c.Oracle("only-the-program-found-on-PATH-runs", r == "A1" || r == "A2", "relative-path-entry-executed", in, "a program under a relative or empty PATH entry was run: "+r)
+					}
+					c.count("path-lookup")
+					c.note("lookpath:"+pathv, true)
+				}
+			}
+			if len(list) == 3 {
+				return
+			}
+			for i := range ents {
+				rec(append(append([]int{}, list...), i))
+			}
+		}
+		rec(nil)
+		// a program of the right name that is NOT on PATH — next to the running age binary, in the working
+		// directory, in $TMPDIR, in $HOME — is never run
+		next := filepath.Join(filepath.Dir(binPath("age")), "age-plugin-nextto")
+		os.WriteFile(next, []byte("#!/bin/sh\necho 'NEXT-TO-BINARY' >> \"$VERIF_LP_MARK\"\nexec '"+stub+"' \"$@\"\n"), 0o755)
+		defer os.Remove(next)
+		home := filepath.Join(lp, "home")
+		for _, d := range []string{wd, home, filepath.Join(home, "bin"), filepath.Join(home, ".local", "bin")} {
+			os.MkdirAll(d, 0o755)
+			os.WriteFile(filepath.Join(d, "age-plugin-nextto"), []byte("#!/bin/sh\necho 'OFF-PATH:"+d+"' >> \"$VERIF_LP_MARK\"\nexec '"+stub+"' \"$@\"\n"), 0o755)
+		}
+		for _, args := range [][]string{{"-e", "-j", "nextto"}, {"-d", "-j", "nextto", filepath.Join(work, "in.age")}} {
+			os.Remove(lpmark)
+			runCLI("age", args, cliOpts{stdin: []byte("data"), dir: wd, env: []string{"PATH=" + filepath.Join(lp, "a0") + ":/usr/bin:/bin", "HOME=" + home, "TMPDIR=" + wd, "VERIF_LP_MARK=" + lpmark, "VERIF_PLUGIN_SCRIPT=" + script}, fsize: -1})
+			b, _ := os.ReadFile(lpmark)
+			c.Oracle("only-the-program-found-on-PATH-runs", len(b) == 0, "off-path-program-executed", map[string]interface{}{"args": args}, "a program that is on no PATH entry was run: "+strings.TrimSpace(string(b)))
+			c.count("off-path-decoys")
 		}
 	}
 	// ---- (c) headers mentioning plugin-like stanza types, native identity: nothing starts ----
